@@ -10,6 +10,7 @@
 package c19
 
 import (
+	"context"
 	"fmt"
 	"io"
 	"math/rand"
@@ -17,6 +18,7 @@ import (
 	"net/http/httptest"
 	"net/url"
 	"strings"
+	"sync"
 
 	"github.com/renbou/grpcbridge"
 	"github.com/renbou/grpcbridge/grpcadapter"
@@ -49,8 +51,86 @@ func (Area) Exec(input string) string {
 		return fmt.Sprintf("q=%s md=%s q2=%s mod=%d", fake.ShowMD(q), fake.ShowMD(md), fake.ShowMD(q2), mod)
 	case "disp":
 		return execDisp(f[1], string(common.MustUnHex(f[2])), fake.ParsePairs(f[3]))
+	case "wsmd":
+		return execWSMD(f[1], string(common.MustUnHex(f[2])), fake.ParsePairs(f[3]))
 	}
 	return "BADOP"
+}
+
+// capture is a grpcadapter.Forwarder that records the incoming metadata it is handed — read the way
+// ProxyForwarder.Forward reads it (metadata.FromIncomingContext) — and ends the call at once.
+type capture struct {
+	mu    sync.Mutex
+	calls int
+	md    metadata.MD
+}
+
+func (c *capture) Forward(ctx context.Context, _ grpcadapter.ForwardParams) error {
+	c.mu.Lock()
+	defer c.mu.Unlock()
+	c.calls++
+	c.md, _ = metadata.FromIncomingContext(ctx)
+	return nil
+}
+
+// execWSMD: the metadata-query clause end to end — a WebSocket handshake with `_metadata[k]=v` query entries AND
+// headers (colliding names in any case, multi-valued, Grpc-Timeout on either side) through the real
+// TranscodedWebSocketBridge.ServeHTTP (via=direct) or through WebBridge.ServeHTTP (via=bridge); what the forwarder
+// receives is reported next to r.Header / r.URL.Query() as the handler saw them.
+func execWSMD(via, rawQuery string, lines [][2]string) string {
+	capt := &capture{}
+	tgt := &fake.Target{Header: metadata.MD{}, Trailer: metadata.MD{}, Responses: 1}
+	rt := &fake.Router{Conn: tgt}
+	var h http.Handler
+	if via == "direct" {
+		h = webbridge.NewTranscodedWebSocketBridge(rt, webbridge.TranscodedWebSocketBridgeOpts{Forwarder: capt})
+	} else {
+		h = grpcbridge.NewWebBridge(rt, grpcbridge.WithForwarder(capt))
+	}
+	var seen http.Header
+	var q url.Values
+	srv := httptest.NewServer(http.HandlerFunc(func(w http.ResponseWriter, r *http.Request) {
+		seen = r.Header.Clone()
+		q = r.URL.Query()
+		h.ServeHTTP(w, r)
+	}))
+	defer srv.Close()
+	rc, err := fake.Dial(srv.Listener.Addr().String())
+	if err != nil {
+		return "ERR dial"
+	}
+	defer rc.Close()
+	target := "/x"
+	if rawQuery != "" {
+		target += "?" + rawQuery
+	}
+	if err := rc.WriteRequest("GET", target, append(fake.WSHandshake(), lines...), nil); err != nil {
+		return "ERR write"
+	}
+	resp, err := rc.ReadResponse("GET")
+	if err != nil {
+		return "ERR read " + common.HexS(err.Error())
+	}
+	if resp.StatusCode == 101 {
+		frames := rc.ReadWSFrames()
+		if n := len(frames); n > 0 && frames[n-1].Opcode == 8 { // answer the closing handshake so the bridge returns at once
+			_ = rc.WriteWSFrame(8, []byte{0x03, 0xe8})
+		}
+	} else {
+		_, _ = io.ReadAll(resp.Body)
+	}
+	rc.Close()
+	srv.Close()
+	if seen == nil {
+		return fmt.Sprintf("rejected st=%d", resp.StatusCode)
+	}
+	capt.mu.Lock()
+	defer capt.mu.Unlock()
+	md := "-"
+	if capt.calls > 0 {
+		md = fake.ShowMD(capt.md)
+	}
+	return fmt.Sprintf("seen=%s q=%s st=%d md=%s", fake.ShowMD(seen), fake.ShowMD(q), resp.StatusCode, md)
 }
 
 func execDisp(method, rawQuery string, lines [][2]string) string {
@@ -355,6 +435,55 @@ func (Area) Gen(r *rand.Rand, tier string, emit func(string)) {
 	}
 	for i := 0; i < nCT; i++ {
 		disp("POST", "", [][2]string{{common.Pick(r, names["Content-Type"]), genContentType(r)}})
+	}
+	// ---- wsmd: query metadata AND headers through the real WebSocket bridge, with a capturing forwarder
+	wsmd := func(via, q string, lines [][2]string) {
+		emit("wsmd " + via + " " + common.HexS(q) + " " + fake.ShowPairs(lines))
+	}
+	for _, via := range []string{"direct", "bridge"} {
+		wsmd(via, "", nil)
+		wsmd(via, "_metadata[x-a]=1&b=2", nil)
+		wsmd(via, "_metadata[authorization]=Bearer+q", [][2]string{{"Authorization", "Bearer h"}})                 // colliding name: both must arrive, query first
+		wsmd(via, "_metadata[Authorization]=q1&_metadata[Authorization]=q2", [][2]string{{"authorization", "h1"}, {"AUTHORIZATION", "h2"}})
+		wsmd(via, "_metadata[grpc-timeout]=10S", [][2]string{{"Grpc-Timeout", "20S"}})
+		wsmd(via, "_metadata[x-only-query]=q", [][2]string{{"X-Only-Header", "h"}})
+		wsmd(via, "_metadata[upgrade]=q&_metadata[connection]=q", nil)                                              // colliding with the handshake's own headers
+		wsmd(via, "_metadata[sec-websocket-key]=q", nil)
+	}
+	nWS := 500
+	if tier == "thorough" {
+		nWS = 15000
+	}
+	wsKeys := []string{"authorization", "Authorization", "AUTHORIZATION", "x-a", "X-A", "x-b", "cookie", "Cookie", "grpc-timeout", "Grpc-Timeout", "x-trace.id", "x_t", "upgrade", "user-agent"}
+	for i := 0; i < nWS; i++ {
+		var parts []string
+		qKeys := map[string]string{} // one spelling per lower-cased query key (case variants would make the order depend on map iteration; mdq covers them)
+		for n := r.Intn(5); n > 0; n-- {
+			k := common.Pick(r, wsKeys)
+			if first, ok := qKeys[strings.ToLower(k)]; ok {
+				k = first
+			} else {
+				qKeys[strings.ToLower(k)] = k
+			}
+			v := common.Pick(r, []string{"q1", "q2", "Bearer q", "10S", "", "q=x&y", "1n"})
+			parts = append(parts, url.QueryEscape("_metadata["+k+"]")+"="+url.QueryEscape(v))
+		}
+		if r.Intn(3) == 0 {
+			parts = append(parts, "field="+common.Pick(r, []string{"1", "x"}))
+		}
+		if r.Intn(8) == 0 {
+			parts = append(parts, url.QueryEscape("_metadata[bad key]")+"=v", url.QueryEscape("_metadata[x-a]")+"=%01")
+		}
+		r.Shuffle(len(parts), func(i, j int) { parts[i], parts[j] = parts[j], parts[i] })
+		var lines [][2]string
+		for n := r.Intn(5); n > 0; n-- {
+			k := common.Pick(r, wsKeys)
+			if strings.EqualFold(k, "upgrade") {
+				continue
+			}
+			lines = append(lines, [2]string{k, common.Pick(r, []string{"h1", "h2", "Bearer h", "20S", "h, list", "30S"})})
+		}
+		wsmd(common.Pick(r, []string{"direct", "bridge"}), strings.Join(parts, "&"), lines)
 	}
 	mdq := func(param, q string) { emit("mdq " + common.HexS(param) + " " + common.HexS(q)) }
 	mdq("", "")
